@@ -880,11 +880,19 @@ func mkSpec(defs []def) *spec {
 			kind[f.name] = "f"
 		}
 		s.members = append(s.members, kind)
+		// `equality` / `serialization` naming a member FUNCTION (no own attribute or constant of that name; an own function, or
+		// the inherited member of that name is one) is refused: EQUALITY_NOT_ATTRIBUTE / SERIALIZATION_NOT_ATTRIBUTE
 		for _, n := range append(append([]string{}, d.eq...), d.ser...) {
-			for _, f := range fns {
-				if n == f.name {
-					panic(fmt.Errorf("definition %d: equality / serialization names the function %s", i, n))
-				}
+			ownAttr := false
+			for _, a := range decls {
+				ownAttr = ownAttr || a.name == n
+			}
+			ownFn := false
+			for _, f := range d.funcs {
+				ownFn = ownFn || f.name == n
+			}
+			if !ownAttr && (ownFn || parentKind[n] == "f") {
+				wf = false
 			}
 		}
 		s.funcs = append(s.funcs, fns)
